@@ -10,6 +10,7 @@
 //                               under a temporary name, sub-trees built completely and attached bottom-up
 //                             2 add(child[,false]) (default argument for required children), bottom-up      (trees < nmax nodes only)
 //                             3 addAs as in 1, top-down                                                   (trees < nmax nodes only)
+//           Modes of the descendants of a module that can never initialise (initx / nocfg) cannot matter and are fixed to ok.
 //           Programs that the real add()/addAs() rejects (two unnamed siblings = "duplicate name") are counted and skipped.
 //           After every build two add() calls that must be refused are made (re-add of an attached child, a second module with
 //           the name of an existing sibling), and after every root call that leaves the root initialised (by the reference) an
@@ -71,7 +72,7 @@ struct FakeCtx : Context {
 };
 static FakeCtx g_ctx;
 
-enum { MAXN = 6, MAXSEQ = 10, MAXLOG = 512 };
+enum { MAXN = 6, MAXSEQ = 12, MAXLOG = 512 };
 enum { HI, HS, HT, HC };                       // hook kinds: init, start, stop, cleanup
 enum { OP_INIT, OP_START, OP_STOP, OP_CLEANUP, OP_FINAL_CLEANUP, OP_DESTROY };
 enum { FIN_CLEANUP_DESTROY, FIN_DESTROY };
@@ -229,7 +230,7 @@ struct Model {
   const Prog *p; int skip;
   uint8_t st[MAXN]; int ni[MAXN], ns[MAXN];       // 0 none, 1 inited, 2 running; hook call counters
   Ev log[MAXLOG]; int nlog, nlog_snap, npass, nops; uint8_t curpass;
-  uint8_t ret[MAXSEQ + 4], rootst[MAXSEQ + 4], st_snap[MAXN], passop[MAXSEQ + 6];
+  uint8_t ret[MAXSEQ + 4], rootst[MAXSEQ + 4], st_snap[MAXN], ni_snap[MAXN], ns_snap[MAXN], passop[MAXSEQ + 6];
   bool present(int i) const { return !(skip >= 0 && p->inSub(i, skip)); }
   void emit(int kind, int x, bool ok) { if (nlog < MAXLOG) { log[nlog].pass = curpass; log[nlog].kind = (uint8_t)kind; log[nlog].node = (uint8_t)x; log[nlog].ok = ok; } nlog++; }
   bool child(int j, int x) const { return p->par[j] == x && present(j); }
@@ -282,6 +283,7 @@ struct Model {
     p = &pp; skip = sk; nlog = 0; memset(st, 0, sizeof st); memset(ni, 0, sizeof ni); memset(ns, 0, sizeof ns);
     int k = drive(*this, seq, len, frontend, ret); nops = k;
     nlog_snap = nlog; memcpy(st_snap, st, sizeof st);
+    for (int i = 0; i < pp.n; i++) { ni_snap[i] = ni[i] > 0; ns_snap[i] = ns[i] > 0; }
     for (int i = 0; i < pp.n; i++) if (!present(i)) st_snap[i] = 3;
     if (!frontend && fin == FIN_CLEANUP_DESTROY) { setPass(k, OP_FINAL_CLEANUP); cleanup(); k++; }
     setPass(k, OP_DESTROY); destroy_(0);
@@ -598,6 +600,7 @@ static std::string evalHistory(const Prog &p, const Json &cfg, const std::vector
     // reference state, and the call counters that decide future hook results
     canon += char('0' + m.st_snap[i]);
     canon += char('0' + (p.fail[i] == M_INITX1 ? r.ni_snap[i] : 0) * 2 + (p.fail[i] == M_STARTX1 ? r.ns_snap[i] : 0));
+    canon += char('0' + (p.fail[i] == M_INITX1 ? m.ni_snap[i] : 0) * 2 + (p.fail[i] == M_STARTX1 ? m.ns_snap[i] : 0));
   }
   // history counters (capped): a rolled-back failure / a finished life cycle is a different state than "never tried"
   if (!frontend) {
@@ -745,6 +748,7 @@ int main(int argc, char **argv) {
               for (int i = 1; i < n && !dead; i++) if (md[i] != M_OK) for (int a = p.par[i]; a >= 0; a = p.par[a]) if (md[a] == M_INITX || md[a] == M_NOCFG) { dead = true; break; }
               if (dead) { if (k == 0) c_pruned++; continue; } }
             if (base++ % K != k) continue;
+            if (g_viol_evals > 100000) { g_capped = true; printf("@CAP part %d/%d: stopped after %ld evaluations with a violation (programs=%ld)\n", k, K, g_viol_evals, c_programs); break; }
             if (hx::now_s() > g_deadline) { g_capped = true; printf("@CAP part %d/%d: deadline reached at n=%d shape=%zu/%zu req=%d names=%d modes=%ld (programs=%ld)\n", k, K, n, si, sh.size(), rq, nm, fl, c_programs); break; }
             long t = fl;
             for (int i = 0; i < n; i++) { int r = p.named[i] ? NFAIL : NFAIL - 1; p.fail[i] = (int)(t % r); t /= r; }
